@@ -12,7 +12,7 @@ machine performs the corresponding `Hp.Step`. `Prom/Lemmas/HistRefine.lean` prov
 item is a stutter, one `Hp.Step` or (see (b)) two `Hp.Step`s of the abstraction, so every state the
 machine reaches while replaying a real trace satisfies the theorems of C02 / C03.
 
-Two freedoms the real code has are accepted (both behaviour-preserving):
+Three freedoms the real code has are accepted (all behaviour-preserving):
 (a) the cell updates of one observation / one flushed batch may come in ANY order (`pick`: the event's
     location selects the entry of the task's list; the first such entry if a cell occurs twice; an event
     that addresses no entry is checked against the head and rejected). The compare-exchange loop on the
@@ -20,6 +20,9 @@ Two freedoms the real code has are accepted (both behaviour-preserving):
     updates may also fall between the loop's load and its compare-exchange.
 (b) a collector may skip the `fetch_add(0)` of `addHot c` on a bucket out of which it swapped 0
     (`skipTask`): the machine then takes the abstract `addHot` step (it adds 0) itself.
+(c) every `fetch_add` on an integer cell (claim and flip on shard_and_count, bucket updates, publish and
+    `addCount` on a shard's count) may be written as a load + compare-exchange loop (`fetchAdd`): the
+    successful exchange carries the site's ordering and is the step; loads and failed exchanges are stutters.
 
 Memory cells are exact integers (`Nat` counts, `Int` cells). Events carry 64-bit patterns: the
 machine compares them with the *encoding* of its own value (`encSc` for shard_and_count, `u64OfInt`
@@ -53,6 +56,8 @@ structure Pc where
   task : Option Task               -- the proof model's task this call currently is (`count`: none)
   cur : Option Int := none         -- a compare-exchange loop on a sum cell has loaded this value
   failed : Bool := false           -- `cur` is the value a FAILED compare-exchange reported: the loop may also load again
+  icur : Option UInt64 := none     -- a compare-exchange loop standing for a `fetch_add` on an integer cell has loaded this pattern
+  ifailed : Bool := false          -- `icur` is the pattern a FAILED compare-exchange reported: the loop may also load again
   stage : Nat := 0                 -- `sum`: 0 lock held, 1 hot shard known, 2 value read
   b : Bool := false                -- `sum`: the shard it learned
   val : Int := 0                   -- `sum`: the value it read
@@ -115,6 +120,39 @@ def casLoop (e : Ev) (c : Hp.St) (pc : Pc) (b : Bool) (cell : Nat) (a : Int) (on
         guard (sumRange x && e.res == f64OfInt x) "failed sum cas reports a wrong current value"
           (.ok (c, { pc with cur := some x, failed := true }, none))
 
+/-- the load of a compare-exchange loop that stands for a `fetch_add` on the integer cell `loc`, which holds
+    the pattern `x`: nothing changes, the call remembers the pattern -/
+def faLoad (e : Ev) (c : Hp.St) (pc : Pc) (loc : Loc) (x : UInt64) (msg : String) : Except String Res :=
+  guard (e.k == "L" && parseLoc e.loc == loc && ordGe e.ord "Relaxed" && e.res == x) msg
+    (.ok (c, { pc with icur := some x, ifailed := false }, none))
+
+/-- **one `fetch_add` site** — the generic acceptor used wherever the code adds `a` to an integer cell
+    (`shard_and_count`, a bucket, a shard's count), which holds the pattern `x`; `ord` is the ordering the
+    site needs, `ok` a side condition of the site (the value stays in the model's range), `onOk` what the
+    addition does to the shared state and the task. Accepted: the single `fetch_add` (operand `a`, ordering
+    at least `ord`, result `x`); or the same addition written as a compare-exchange loop - a load (any
+    ordering), then `compare_exchange(_weak)(cur, cur + a)` (wrapping) with ordering at least `ord`, which
+    succeeds only if the cell still holds `cur`, and after a failure (which reports the cell's pattern and
+    changes nothing) either loads again or goes on with the reported pattern. A successful exchange is a
+    read-modify-write with the site's ordering, exactly like the `fetch_add` it stands for; loads and failed
+    exchanges are stutters. -/
+def fetchAdd (e : Ev) (c : Hp.St) (pc : Pc) (loc : Loc) (ord : String) (a x : UInt64) (ok : Bool) (msg : String)
+    (onOk : Res) : Except String Res :=
+  let done : Res := (onOk.1, { onOk.2.1 with icur := none, ifailed := false }, onOk.2.2)
+  if e.k == "A" then
+    guard (parseLoc e.loc == loc && ordGe e.ord ord && e.a == a && e.res == x && ok && pc.icur.isNone) msg (.ok done)
+  else
+    match pc.icur with
+    | none => faLoad e c pc loc x msg
+    | some cur =>
+      if pc.ifailed && e.k == "L" then faLoad e c pc loc x msg else
+      guard (e.k == "C" && parseLoc e.loc == loc && ordGe e.ord ord && e.a == cur && e.b == cur + a)
+        (msg ++ s!" (or, as a loop: cas {ord} {hexStr cur} -> {hexStr (cur + a)})") <|
+        if e.ok then
+          guard (x == cur && e.res == cur && ok) "cas succeeded although the cell no longer holds the expected value" (.ok done)
+        else
+          guard (e.res == x) "failed cas reports a wrong current value" (.ok (c, { pc with icur := some x, ifailed := true }, none))
+
 /-- does an event on location `loc` address the cell of the update entry `p` of an observation
     running in shard `b`? (cells `< k` are buckets, the other cell is the sum) -/
 def hits (k : Nat) (b : Bool) (loc : Loc) (p : Nat × Int) : Bool :=
@@ -144,9 +182,9 @@ def obsEntry (k : Nat) (c : Hp.St) (e : Ev) (pc : Pc) (o : Obs) (b : Bool) (cell
   let x := (c.sh b).cell cell
   let c' : Hp.St := { c with sh := modSh c.sh b (fun sd => { sd with cell := setCell sd.cell cell (sd.cell cell + a) }) }
   if cell < k then
-    guard (e.k == "A" && parseLoc e.loc == .bkt b cell && ordGe e.ord "Relaxed" && e.a == u64OfInt a && e.res == u64OfInt x)
+    fetchAdd e c pc (.bkt b cell) "Relaxed" (u64OfInt a) (u64OfInt x) true
       s!"{pc.op}: expected fetch_add Relaxed {a} on bucket {cell} of shard {b} -> {x}"
-      (.ok (c', { pc with task := some (.obsRun o b rest) }, none))
+      (c', { pc with task := some (.obsRun o b rest) }, none)
   else casLoop e c pc b cell a (c', { pc with task := some (.obsRun o b rest), cur := none, failed := false }, none)
 
 def plainR (cuts : Cuts) (r : Except String Res) : Except String (Res × Cuts) :=
@@ -161,19 +199,18 @@ def evStep1 (k : Nat) (c : Hp.St) (cuts : Cuts) (e : Ev) (pc : Pc) : Except Stri
       s!"{pc.op}: expected load Relaxed of shard_and_count -> {hexStr (encSc c.hot c.n)}"
       (.ok (c, pc, some (toString c.n)))
   | some (.obsStart o) =>
-    plain <| guard (e.k == "A" && parseLoc e.loc == .sc && ordGe e.ord "Acquire" && e.a == o.w.toUInt64 &&
-           e.res == encSc c.hot c.n && decide (c.n + o.w < 9223372036854775808))
+    plain <| fetchAdd e c pc .sc "Acquire" o.w.toUInt64 (encSc c.hot c.n) (decide (c.n + o.w < 9223372036854775808))
       s!"{pc.op}: expected claim fetch_add Acquire {o.w} on shard_and_count -> {hexStr (encSc c.hot c.n)}"
-      (.ok ({ c with n := c.n + o.w, claimed := c.claimed ++ [o], asg := modAsg c.asg c.hot (· ++ [o]) },
-            { pc with task := some (.obsRun o c.hot o.upd) }, none))
+      ({ c with n := c.n + o.w, claimed := c.claimed ++ [o], asg := modAsg c.asg c.hot (· ++ [o]) },
+       { pc with task := some (.obsRun o c.hot o.upd) }, none)
   | some (.obsRun o b (p :: l)) =>
     -- the updates of one observation may come in any order: the event's location selects the entry
     let sp := pick k b (parseLoc e.loc) p l
     plain <| obsEntry k c e pc o b sp.2.1.1 sp.2.1.2 (sp.1 ++ sp.2.2)
   | some (.obsRun o b []) =>
-    plain <| guard (e.k == "A" && parseLoc e.loc == .cnt b && ordGe e.ord "Release" && e.a == o.w.toUInt64 && e.res == (c.sh b).count.toUInt64)
+    plain <| fetchAdd e c pc (.cnt b) "Release" o.w.toUInt64 (c.sh b).count.toUInt64 true
       s!"{pc.op}: expected publish fetch_add Release {o.w} on the count of shard {b} -> {(c.sh b).count}"
-      (.ok ({ c with sh := modSh c.sh b (fun sd => { sd with count := sd.count + o.w }) }, { pc with task := none }, some ""))
+      ({ c with sh := modSh c.sh b (fun sd => { sd with count := sd.count + o.w }) }, { pc with task := none }, some "")
   | some .colWant =>
     plain <| guard (e.k == "K" && parseLoc e.loc == .lk && !c.lock)
       s!"{pc.op}: expected to acquire the free collect lock"
@@ -191,9 +228,9 @@ def evStep1 (k : Nat) (c : Hp.St) (cuts : Cuts) (e : Ev) (pc : Pc) : Except Stri
         plain <| guard (e.k == "k" && parseLoc e.loc == .lk) "sum: expected unlock"
           (.ok ({ c with lock := false }, { pc with task := none }, some (hexStr (f64OfInt pc.val))))
     else
-      plain <| guard (e.k == "A" && parseLoc e.loc == .sc && ordGe e.ord "AcqRel" && e.a == top && e.res == encSc c.hot c.n)
+      plain <| fetchAdd e c pc .sc "AcqRel" top (encSc c.hot c.n) true
         s!"collect: expected flip fetch_add AcqRel 2^63 on shard_and_count -> {hexStr (encSc c.hot c.n)}"
-        (.ok ({ c with hot := !c.hot }, { pc with task := some (.colSpin c.hot c.n c.claimed) }, none))
+        ({ c with hot := !c.hot }, { pc with task := some (.colSpin c.hot c.n c.claimed) }, none)
   | some (.colSpin cold ov S) =>
     plain <| guard (e.k == "C" && parseLoc e.loc == .cnt cold && ordGe e.ord "Acquire" && e.a == ov.toUInt64 && e.b == 0)
       s!"collect: expected spin cas Acquire {ov} -> 0 on the count of shard {cold}" <|
@@ -218,14 +255,14 @@ def evStep1 (k : Nat) (c : Hp.St) (cuts : Cuts) (e : Ev) (pc : Pc) : Except Stri
     let r : Res := ({ c with sh := modSh c.sh (!cold) (fun sd => { sd with cell := setCell sd.cell cell (sd.cell cell + taken cell) }) },
                     { pc with task := some (.colMove cold ov todo taken S), cur := none, failed := false }, none)
     if cell < k then
-      plain <| guard (e.k == "A" && parseLoc e.loc == .bkt (!cold) cell && ordGe e.ord "Relaxed" && e.a == u64OfInt (taken cell) && e.res == u64OfInt x)
-        s!"collect: expected fetch_add Relaxed {taken cell} on bucket {cell} of shard {!cold} -> {x}" (.ok r)
+      plain <| fetchAdd e c pc (.bkt (!cold) cell) "Relaxed" (u64OfInt (taken cell)) (u64OfInt x) true
+        s!"collect: expected fetch_add Relaxed {taken cell} on bucket {cell} of shard {!cold} -> {x}" r
     else plain <| casLoop e c pc (!cold) cell (taken cell) r
   | some (.colMove cold ov (.addCount :: todo) taken S) =>
-    plain <| guard (e.k == "A" && parseLoc e.loc == .cnt (!cold) && ordGe e.ord "Relaxed" && e.a == ov.toUInt64 && e.res == (c.sh (!cold)).count.toUInt64)
+    plain <| fetchAdd e c pc (.cnt (!cold)) "Relaxed" ov.toUInt64 (c.sh (!cold)).count.toUInt64 true
       s!"collect: expected fetch_add Relaxed {ov} on the count of shard {!cold} -> {(c.sh (!cold)).count}"
-      (.ok ({ c with sh := modSh c.sh (!cold) (fun sd => { sd with count := sd.count + ov }) },
-            { pc with task := some (.colMove cold ov todo taken S) }, none))
+      ({ c with sh := modSh c.sh (!cold) (fun sd => { sd with count := sd.count + ov }) },
+       { pc with task := some (.colMove cold ov todo taken S) }, none)
   | some (.colMove cold ov (.unlock :: _) taken S) =>
     match guard (e.k == "k" && parseLoc e.loc == .lk) "collect: expected unlock" (.ok ()) with
     | .error m => .error m
